@@ -16,7 +16,9 @@ package main
 import (
 	"encoding/json"
 	"fmt"
+	"os"
 	"reflect"
+	"strconv"
 	"strings"
 
 	"github.com/hattya/go.sh/ast"
@@ -71,7 +73,13 @@ var c08Templates = [][]string{
 	{"cat @H | # c", "b"}, {"cat @H && # c", "b"}, {"case x in a) cat @H ;; # c", "esac"}, {"cat @H | # c", "cat @H"}, {"f() # c", "{ cat @H; }"},
 	// a here-document pending at the newline that ends a for header
 	{"cat @H | for x in a", "do b; done"}, {"cat @H; for x", "do b; done"}, {"cat @H && for x in a b", "do cat @H; done"},
+	// several here-documents pending at a newline inside a grammar linebreak (after | && || ;; and a for header);
+	// from here on the two-site templates take the reduced site menu of the three-site ones
+	{"cat @H 3@H |", "b"}, {"cat @H @H &&", "b"}, {"cat @H | cat @H ||", "b"}, {"case x in a) cat @H @H ;;", "esac"}, {"cat @H @H | for x in a", "do b; done"},
+	{"cat @H @H @H |", "b"},
 }
+
+const c08ReducedFrom = 45
 
 func c08Sites(t []string) int {
 	n := 0
@@ -281,6 +289,9 @@ func c08Run(w *W) {
 		return c08Site{1, op, d.src, d.delim, d.quoted, body}, true
 	}
 	for ti, t := range c08Templates {
+		if only := os.Getenv("VCHECK_C08_TEMPLATE"); only != "" && only != strconv.Itoa(ti) {
+			continue // (debugging aid: one template only)
+		}
 		n := c08Sites(t)
 		var choices [][]c08Site
 		switch n {
@@ -316,6 +327,18 @@ func c08Run(w *W) {
 						}
 						if s, ok := mk(op, d, b); ok {
 							per = append(per, s)
+						}
+					}
+				}
+			}
+			if ti >= c08ReducedFrom {
+				per = per[:0]
+				for _, op := range ops {
+					for _, d := range c08Delims[:2] {
+						for _, b := range [][]string{{"x"}, {"$v"}, nil} {
+							if s, ok := mk(op, d, b); ok {
+								per = append(per, s)
+							}
 						}
 					}
 				}
@@ -422,7 +445,7 @@ func init() {
 	register(&check{
 		id:    "C08",
 		level: "model_checking",
-		rule: "45 host templates with 1–3 here-document sites (simple command, both sides of a pipe, lists, every compound form, function body, compound redirection, inside $( ) and backquotes, before && / | + newline, numbered, several on one line and on different lines) × {<<, <<- with 0–3 tabs before the delimiter line} × delimiters {E, 'E', \"E\", E\\F} × bodies from the 17-line menu " +
+		rule: "51 host templates with 1–3 here-document sites (simple command, both sides of a pipe, lists, every compound form, function body, compound redirection, inside $( ) and backquotes, before && / | + newline, numbered, several on one line and on different lines, several pending at a newline inside a linebreak) × {<<, <<- with 0–3 tabs before the delimiter line} × delimiters {E, 'E', \"E\", E\\F} × bodies from the 17-line menu " +
 			"{empty, x, 'E ', ' E', EE, tab+x, tab+E, $v, $(c), `c`, \\$v, a\\b, ${v}E, $(c)E, \\$E, $1EF, #x} (one-site: all sequences ≤ 2 lines; two sites: ≤ 1 line each; three sites: 8 variants each); every program under ALL schedules of the lexer/parser pair (one site) or all schedules with ≤ 1 preemption (more sites); second phase: every sentence of the derivation generator that carries a here-document (D0, D1, DH; thorough D2, DC) in one-line and multi-line layout under all schedules with ≤ 1 preemption, judged against the grammar model's AST",
 		assume: []string{"backslash-newline inside bodies is outside the alphabet (POSIX removes it, 'byte for byte' cannot be demanded there)", "scheduler as in C06 (e2.go)"},
 		run:    c08Run,
@@ -440,4 +463,14 @@ func init() {
 			return nil
 		},
 	})
+}
+
+func init() {
+	if c08Templates[c08ReducedFrom][0] != "cat @H 3@H |" {
+		for i, t := range c08Templates {
+			if t[0] == "cat @H 3@H |" {
+				panic(fmt.Sprintf("c08ReducedFrom must be %d", i))
+			}
+		}
+	}
 }
